@@ -30,7 +30,8 @@ SPEC = {
                    "keeps its element and only when full by a sound occupancy bound, instance accounting under ASan, mutual "
                    "exclusion, try_lock only on a free lock, logical no-progress bound). A second run executes free-running "
                    "threads under TSan + shim. Sampling of schedules, not enumeration."),
-    "level_note": ("schedules are sampled, not enumerated (evidence reports schedules executed and distinct schedule hashes); "
+    "level_note": ("schedules are sampled (evidence reports schedules executed and distinct schedule hashes); only the bounded-preemption "
+                   "space of the ten tiny configurations is enumerated completely (counters enum_*); "
                    "sequentially consistent execution only in serialised mode - weak-memory reorderings are covered only as far "
                    "as TSan's happens-before model flags them in the free-running run; trusts the baton scheduler (vf_serial.h)"),
     "rule": ("case i = one seeded schedule. 4 of 5 cases: CircularBuffer<Elem> of capacity 1..3, 1..3 producers adding 1..6 "
